@@ -66,6 +66,12 @@ func findClosestN(query fastaio.EncodedFastaRecord, catchmentSize int, maxdist f
 			distance = tn93Distance(query, target)
 		}
 
+		// if the pair has no site that is resolved in both sequences the distance is
+		// undefined (NaN), and NaN compares false with everything: rank such a target last
+		if math.IsNaN(distance) {
+			distance = math.Inf(1)
+		}
+
 		if maxdist != -1.0 {
 			if distance > maxdist {
 				continue
